@@ -28,6 +28,12 @@ func otTemplate(variant string) string {
 		return "apiVersion: v1\nkind: ConfigMap\nmetadata:\n  name: ot-target\ndata:\n  a: {{ .config.a \n"
 	case "cluster-target":
 		return "apiVersion: sim.example/v1\nkind: ClusterWidget\nmetadata:\n  name: ot-cw\nspec:\n  size: 1\n"
+	case "widget-target":
+		return "apiVersion: sim.example/v1\nkind: Widget\nmetadata:\n  name: ot-widget\nspec:\n  size: 1\n  a: \"{{ index .config \"a\" }}\"\n"
+	case "not-an-object":
+		return "just a string, not an object: [\n"
+	case "empty":
+		return ""
 	case "foreign-target":
 		return "apiVersion: v1\nkind: ConfigMap\nmetadata:\n  name: ot-target\n  namespace: ns2\ndata:\n  a: \"{{ .config.a }}\"\n"
 	}
@@ -35,7 +41,8 @@ func otTemplate(variant string) string {
 }
 
 // GenOT generates one (Cluster)ObjectTemplate with 1-3 sources and a history of source/template changes.
-func GenOT(w *World, maxEdits int) *Scenario {
+func GenOT(w *World, maxEdits int, opts ...string) *Scenario {
+	hostile := len(opts) > 0 && opts[0] == "hostile"
 	s := w.Scn
 	sc := &Scenario{Family: "S-OT", Facts: map[string]any{}}
 	g := &OTGen{Kind: "ObjectTemplate"}
@@ -87,8 +94,22 @@ func GenOT(w *World, maxEdits int) *Scenario {
 	if g.Cluster {
 		variants = []string{"valid", "valid", "unparsable"}
 	}
+	if hostile {
+		variants = append(variants, "widget-target", "widget-target", "not-an-object", "empty")
+	}
 	variant := variants[s.Intn(len(variants), "template-variant")]
 	tpl := otTemplate(variant)
+	if hostile {
+		// odd source items: keys/destinations the CRD accepts
+		oddKeys := []string{".data.k", "", "data.k", "{.data.k}", "{.data", ".data.*", ".data.k.deeper", "..", ".metadata.labels"}
+		oddDest := []string{".a", "", "a", ".a.b", ".a..b", ".", "..", ".a.0"}
+		for _, sx := range sources {
+			sm := sx.(map[string]any)
+			if s.Bool("odd-item") {
+				sm["items"] = []any{map[string]any{"key": oddKeys[s.Intn(len(oddKeys), "odd-key")], "destination": oddDest[s.Intn(len(oddDest), "odd-dest")]}}
+			}
+		}
+	}
 	if g.Cluster && variant == "valid" {
 		tpl = "apiVersion: v1\nkind: ConfigMap\nmetadata:\n  name: ot-target\n  namespace: ns1\ndata:\n  a: \"{{ .config.a }}\"\n  b: \"{{ default \"none\" (index .config \"b\") }}\"\n  v: \"{{ .environment.kubernetes.version }}\"\n"
 	}
